@@ -9,8 +9,8 @@ not-connected state, every request method is run again, then disconnect, then co
 (succeeding / non-EBB / open failing / no disconnect) followed by every method once more.
 """
 from .. import core
-from ..ebb3drv import (call, connect_env, is_failure_value, new_object, operations,
-                       SerialException)
+from ..ebb3drv import (call, connect_env, decoy_problem, is_failure_value, make_decoy,
+                       new_object, operations, SerialException)
 from ..explore import Chooser, Stats, explore
 from ..fakeserial import EBB3Board, FakePort, Profile, QUIET
 
@@ -54,6 +54,7 @@ def run_history(chooser, steps):
     """Execute steps on a fresh object.  Returns (violations, trace of canonical states,
     number of blocked transitions checked, final object)."""
     start_connected = steps[0][0] != "never"
+    decoy = make_decoy()
     obj, port, _board = new_object(chooser, FAULTS, connected=start_connected)
     ports = [port]
     viols = []
@@ -124,6 +125,9 @@ def run_history(chooser, steps):
                           f"{where}{history[-1]}: recorded error changed from {pre_err!r} to "
                           f"{obj.err!r}"))
         states.append(canonical(obj, ports))
+    leak = decoy_problem(decoy)
+    if leak:
+        viols.append(("isolation", f"after {history!r}: {leak}"))
     return viols, states, checked, obj
 
 
@@ -220,6 +224,11 @@ def run(ctx):
         for key, val in found.items():
             blocked.setdefault(key, val)
     error_states = len(blocked)
+    if error_states < len(ops):
+        # not a verdict about the latch: if faults no longer lead to a recorded error the
+        # premise of the property cannot be established (C05 decides that clause)
+        raise RuntimeError(f"vacuous exploration: only {error_states} error-latched states were "
+                           f"reached from {len(ops)} operations under fault injection")
     distinct_msgs = len({v[2] for v in blocked.values()})
     # not-connected states
     seeds = [([("never",)], []),
